@@ -3,6 +3,7 @@ package ipc
 import (
 	"fmt"
 	"go/constant"
+	"go/token"
 	"go/types"
 	"strings"
 
@@ -339,6 +340,40 @@ func hopTableKeys(p *Prog) (utilsKeys, serverKeys []string, ok1, ok2 bool) {
 				ok2 = true
 			}
 		})
+		// or a membership test in a package-level set built once by the initialiser
+		if !ok2 {
+			var tbl *ssa.Global
+			EachInstr(fn, func(i ssa.Instruction) {
+				if lk, ok := i.(*ssa.Lookup); ok {
+					if ld, ok := lk.X.(*ssa.UnOp); ok {
+						if g, ok := ld.X.(*ssa.Global); ok {
+							tbl = g
+						}
+					}
+				}
+			})
+			if tbl != nil && globalWrittenOnlyByInit(p, tbl) {
+				if init := p.Func("server.init"); init != nil {
+					EachInstr(init, func(i ssa.Instruction) {
+						mu, ok := i.(*ssa.MapUpdate)
+						if !ok {
+							return
+						}
+						for _, r := range Refs(mu.Map) {
+							if s, ok := r.(*ssa.Store); ok && s.Addr == ssa.Value(tbl) {
+								if k, ok := ConstString(mu.Key); ok {
+									if v, isC := mu.Value.(*ssa.Const); isC && v.Value != nil && v.Value.Kind() == constant.Bool && !constant.BoolVal(v.Value) {
+										continue
+									}
+									serverKeys = append(serverKeys, k)
+									ok2 = true
+								}
+							}
+						}
+					})
+				}
+			}
+		}
 	}
 	return
 }
@@ -768,4 +803,36 @@ func knownGuard(cond ssa.Value, fn *ssa.Function) bool {
 		}
 	}
 	return false
+}
+
+// globalWrittenOnlyByInit: the package-level map is assigned once, by the
+// package initialiser, and no function stores into it, updates or deletes
+// from it afterwards.
+func globalWrittenOnlyByInit(p *Prog, g *ssa.Global) bool {
+	ok := true
+	for _, fn := range p.AllFuncs {
+		isInit := fn.Name() == "init" && fn.Pkg == g.Pkg
+		EachInstrRaw(fn, func(i ssa.Instruction) {
+			switch x := i.(type) {
+			case *ssa.Store:
+				if x.Addr == ssa.Value(g) && !isInit {
+					ok = false
+				}
+			case *ssa.UnOp:
+				if x.Op == token.MUL && x.X == ssa.Value(g) && !isInit {
+					for _, r := range Refs(x) {
+						switch u := r.(type) {
+						case *ssa.MapUpdate:
+							ok = false
+						case *ssa.Call:
+							if b, isB := u.Call.Value.(*ssa.Builtin); isB && (b.Name() == "delete" || b.Name() == "clear") {
+								ok = false
+							}
+						}
+					}
+				}
+			}
+		})
+	}
+	return ok
 }
